@@ -103,7 +103,8 @@ func (r *Reader) readIloc(b *box) (err error) {
 		// 6-byte item.)
 		if ent.count > 0 && i+extentSize <= len(buf) {
 			var ol offsetLength
-			ol.offset = uintN(ilb.offsetSize, buf[i:i+int(ilb.offsetSize)])
+			// the extent lies at base offset + extent offset
+			ol.offset = ent.baseOffset + uintN(ilb.offsetSize, buf[i:i+int(ilb.offsetSize)])
 			i += int(ilb.offsetSize)
 			ol.length = uintN(ilb.lengthSize, buf[i:i+int(ilb.lengthSize)])
 			i += int(ilb.lengthSize)
